@@ -15,7 +15,9 @@ New agreement statements (next to `PredSem.PathOK` / `PredSem.PredOK`):
 
 Per-form truth lemmas: `predOK_countR/L` (`count(P) op n`, `n op count(P)`), `predOK_strTest`
 (`contains` / `starts-with` / `ends-with` against a literal), `predOK_strCmp` (string `=`/`!=`
-literal), `strValOK_*` (literal, `local-name()`, `local-name(P)`), `pathOK_group`.
+literal), `strValOK_*` (literal, `local-name()`, `local-name(P)`), `pathOK_group`,
+`predOK_cmpPath` (`P op Q` for two paths of any shape, all six operators; `compare_nodes_congr`),
+`predOK_cmpStrR` / `predOK_cmpStrL` (`P op 'lit'`, `'lit' op P`, all six operators).
 -/
 namespace XPathV.PredSem2
 open XPathV XPathV.Model XPathV.PathSem XPathV.PredSem NumAlg
@@ -365,5 +367,119 @@ theorem predOK_notCount (d : Doc) (cfg : ECfg) (pfx pfx' : String) (pl : Plan) (
     exact callFn_not_num d cfg c.node _
   · rw [eval_not d pfx _ c _ (eval_count d pfx' p c ns g hS)]
     rfl
+
+/-! ## a path compared with a path (`P op Q`) or with a string literal (`P op 'lit'`, `'lit' op P`)
+
+XPath 1.0 §3.4: `P op Q` on two node-sets is true iff *some* node of `P` and *some* node of `Q`
+compare — on their string-values for `=` and `!=`, on the numbers of their string-values for
+`<`, `<=`, `>`, `>=`; `P op 'lit'` iff some node of `P` compares with the literal in the same way.
+The truth is existential, so it depends on the node *sets* only: neither the order nor the
+repetitions of the engine's result sequences matter, and no flatness requirement is needed
+(`compare_nodes_congr`).
+
+The engine's cells (`cmpNodeSetNodeSet`, `cmpNodeSetString`, `cmpStringNodeSet`, all through
+`cmpStringStringF`) are XPath's for **all six** operators since the repair of `cmpStringStringF`
+(relational operators on `stringToNumber` of the operands — they used to compare the strings
+byte-wise: `<b>10</b>` against `<c>9</c>` satisfied `b < c`) and of `cmpNodeSetString` (operands in
+order): `Theorems.C07.cell_setSet`, `cell_setStr`, `cell_strSet`.  So `predOK_cmpPath`, first stated
+for `=`/`!=` only, now covers `cmpOps`. -/
+
+/-- the oracle's comparison of two node lists depends on their members only -/
+theorem compare_nodes_congr (d : Doc) (cop : Spec.CmpOp) (la la' lb lb' : List Ref)
+    (ha : ∀ x, x ∈ la ↔ x ∈ la') (hb : ∀ x, x ∈ lb ↔ x ∈ lb') :
+    Spec.compare (F := F) d cop (.nodes la) (.nodes lb) =
+      Spec.compare (F := F) d cop (.nodes la') (.nodes lb') := by
+  simp only [Spec.compare]
+  rw [any_congr_mem la la' _ ha]
+  congr 1; funext x
+  exact any_congr_mem lb lb' _ hb
+
+/-- what the engine's node-set/node-set cell computes, for every operator: some pair of
+string-values is related by the string comparator `cmpStrF` (`=`/`!=` on the strings, the relational
+operators on their numbers) -/
+theorem cmpM_setSet_is_cmpStrF (d : Doc) (cop : Spec.CmpOp) (la lb : List Ref) :
+    cmpM (F := F) d cop (.nodes la) (.nodes lb) =
+      .ok (la.any (fun x => lb.any (fun y =>
+        cmpStrF (F := F) cop (stringValue d x) (stringValue d y)))) := by
+  simp [cmpM, xtypeOf, bind, Except.bind, pure, Except.pure]
+
+/-- the engine's node-set/node-set cell is XPath's for `=` and `!=` (kept; `cmpM_setSet_cmpOps`
+is the statement for all six operators) -/
+theorem cmpM_setSet_eqOps (d : Doc) (op : String) (hop : op ∈ eqOps) (la lb : List Ref) :
+    ∃ cop, Spec.CmpOp.ofString op = some cop ∧
+      cmpM (F := F) d cop (.nodes la) (.nodes lb) =
+        .ok (Spec.compare (F := F) d cop (.nodes la) (.nodes lb)) := by
+  obtain ⟨cop, hcop⟩ := cmpOps_ofString op (eqOps_cmpOps hop)
+  exact ⟨cop, hcop, Theorems.C07.cell_setSet d cop la lb⟩
+
+/-- the engine's node-set/node-set cell is XPath's for all six operators -/
+theorem cmpM_setSet_cmpOps (d : Doc) (op : String) (hop : op ∈ cmpOps) (la lb : List Ref) :
+    ∃ cop, Spec.CmpOp.ofString op = some cop ∧
+      cmpM (F := F) d cop (.nodes la) (.nodes lb) =
+        .ok (Spec.compare (F := F) d cop (.nodes la) (.nodes lb)) := by
+  obtain ⟨cop, hcop⟩ := cmpOps_ofString op hop
+  exact ⟨cop, hcop, Theorems.C07.cell_setSet d cop la lb⟩
+
+/-- **`P op Q` for two paths** whenever the engine's cell for `op` is XPath's on node lists: a
+boolean on both sides, the same one — only *set* agreement (`PathOK`) of the operands is needed -/
+theorem predOK_cmpPath_of_cell (d : Doc) (cfg : ECfg) (op : String) (cop : Spec.CmpOp)
+    (hcop : Spec.CmpOp.ofString op = some cop)
+    (hcell : ∀ la lb : List Ref, cmpM (F := F) d cop (.nodes la) (.nodes lb) =
+      .ok (Spec.compare (F := F) d cop (.nodes la) (.nodes lb)))
+    (pl ql : Plan) (p q : Ast) (c : Spec.Ctx)
+    (hp : PathOK (F := F) d cfg pl p c) (hq : PathOK (F := F) d cfg ql q c) :
+    PredOK (F := F) d cfg (.logical op pl ql) (.oper op p q) c := by
+  obtain ⟨out1, ns1, g1, _, hE1, hS1, hm1, hv1, _⟩ := hp
+  obtain ⟨out2, ns2, g2, _, hE2, hS2, hm2, hv2, _⟩ := hq
+  refine ⟨.bool (Spec.compare (F := F) d cop (.nodes (nodesVal d cfg out1))
+      (.nodes (nodesVal d cfg out2))),
+    .bool (Spec.compare (F := F) d cop (.nodes ns1) (.nodes ns2)), none, ?_, ?_, trivial, trivial, ?_⟩
+  · exact evalP_logical d cfg op cop hcop _ _ _ _ _ _ hE1 hE2 (hcell _ _)
+  · rw [eval_cmp d op cop hcop p q c _ _ hS1 hS2]
+    simp only [Spec.Res.value]
+  · simp only [truthM, Spec.toBool]
+    exact compare_nodes_congr d cop _ _ _ _ (mem_nodesVal d cfg out1 ns1 hm1 hv1)
+      (mem_nodesVal d cfg out2 ns2 hm2 hv2)
+
+/-- **`P op Q` for two paths of any shape, all six operators** (generalised from `eqOps` after the
+repair of `cmpStringStringF`): a boolean on both sides, the same one -/
+theorem predOK_cmpPath (d : Doc) (cfg : ECfg) (op : String) (hop : op ∈ cmpOps) (pl ql : Plan)
+    (p q : Ast) (c : Spec.Ctx)
+    (hp : PathOK (F := F) d cfg pl p c) (hq : PathOK (F := F) d cfg ql q c) :
+    PredOK (F := F) d cfg (.logical op pl ql) (.oper op p q) c := by
+  obtain ⟨cop, hcop⟩ := cmpOps_ofString op hop
+  exact predOK_cmpPath_of_cell d cfg op cop hcop (fun la lb => Theorems.C07.cell_setSet d cop la lb)
+    pl ql p q c hp hq
+
+/-- **path `op` string literal, all six operators** (`=`/`!=`: `predOK_eqStr`, `predOK_neStr`; the
+relational ones compare the number of a node's string-value with the number of the literal) -/
+theorem predOK_cmpStrR (d : Doc) (cfg : ECfg) (op : String) (hop : op ∈ cmpOps) (pl : Plan) (p : Ast)
+    (s : String) (c : Spec.Ctx) (h : PathOK (F := F) d cfg pl p c) :
+    PredOK (F := F) d cfg (.logical op pl (.constStr s)) (.oper op p (.str s)) c := by
+  obtain ⟨out, ns, g, _, hE, hS, hm, hv, _⟩ := h
+  obtain ⟨cop, hcop⟩ := cmpOps_ofString op hop
+  refine ⟨.bool (Spec.compare (F := F) d cop (.nodes (nodesVal d cfg out)) (.str s)),
+    .bool (Spec.compare (F := F) d cop (.nodes ns) (.str s)), none, ?_, ?_, trivial, trivial, ?_⟩
+  · exact evalP_logical d cfg op cop hcop _ _ _ _ _ _ hE (evalP_constStr d cfg s _)
+      (Theorems.C07.cell_setStr d cop _ _)
+  · rw [eval_cmp d op cop hcop p (.str s) c _ _ hS (eval_str d s c)]
+    simp only [Spec.Res.value]
+  · simp only [truthM, Spec.toBool, Spec.compare]
+    exact any_congr_mem _ _ _ (mem_nodesVal d cfg out ns hm hv)
+
+/-- **string literal `op` path, all six operators** -/
+theorem predOK_cmpStrL (d : Doc) (cfg : ECfg) (op : String) (hop : op ∈ cmpOps) (pl : Plan) (p : Ast)
+    (s : String) (c : Spec.Ctx) (h : PathOK (F := F) d cfg pl p c) :
+    PredOK (F := F) d cfg (.logical op (.constStr s) pl) (.oper op (.str s) p) c := by
+  obtain ⟨out, ns, g, _, hE, hS, hm, hv, _⟩ := h
+  obtain ⟨cop, hcop⟩ := cmpOps_ofString op hop
+  refine ⟨.bool (Spec.compare (F := F) d cop (.str s) (.nodes (nodesVal d cfg out))),
+    .bool (Spec.compare (F := F) d cop (.str s) (.nodes ns)), none, ?_, ?_, trivial, trivial, ?_⟩
+  · exact evalP_logical d cfg op cop hcop _ _ _ _ _ _ (evalP_constStr d cfg s _) hE
+      (Theorems.C07.cell_strSet d cop _ _)
+  · rw [eval_cmp d op cop hcop (.str s) p c _ _ (eval_str d s c) hS]
+    simp only [Spec.Res.value]
+  · simp only [truthM, Spec.toBool, Spec.compare]
+    exact any_congr_mem _ _ _ (mem_nodesVal d cfg out ns hm hv)
 
 end XPathV.PredSem2
